@@ -22,6 +22,7 @@ type TapEv struct {
 	Rpc  *Rpc // deep copy taken at write time
 	Orig *Rpc // the very pointer written (identity checks on by-reference links)
 	Lost bool // accepted by a link whose reading side had failed
+	Withdrawn bool // rendezvous write given up on its context before anyone read it: it never reached the peer
 }
 
 // LinkCfg are the per-link draws (DESIGN 3.3).
@@ -411,8 +412,14 @@ func (l *Link) write(ctx context.Context, rpc *Rpc) error {
 			for i, p := range l.inflight {
 				if p == pw {
 					l.inflight = append(l.inflight[:i], l.inflight[i+1:]...)
-					l.mu.Unlock()
 					// withdrawn: it never reaches the peer. Keep the tap entry but mark it.
+					for ti := len(l.Tap) - 1; ti >= 0; ti-- {
+						if l.Tap[ti].Orig == rpc {
+							l.Tap[ti].Withdrawn = true
+							break
+						}
+					}
+					l.mu.Unlock()
 					return ctx.Err()
 				}
 			}
